@@ -192,6 +192,27 @@ Theorem C04_pair_eventual_refuted : exists src local fs,
   prefix local src /\ pair_run src local fs = ([1]%N, DFailedCancelled, 1%nat) /\ src <> [1]%N.
 Proof. exact pair_eventual_refuted. Qed.
 
+(* The upload ends in a terminal state also when the failure notification (PeerUploadFailed) itself
+   raises or never returns: the state change comes first (ul_fail_before_notify, regenerated), so the
+   outcome does not depend on the message connection at all. *)
+Theorem C04_upload_terminal_msg : forall src fsz off grant cut msg_ok,
+  u_terminal (u_state (upload_session_msg src fsz off grant cut true msg_ok)).
+Proof. exact upload_terminal_msg. Qed.
+
+Theorem C04_upload_msg_irrelevant : forall src fsz off grant cut pc msg_ok,
+  upload_session_msg src fsz off grant cut pc msg_ok = upload_session src fsz off grant cut pc.
+Proof. exact upload_msg_irrelevant. Qed.
+
+(* One negotiation per download at a time: a request that arrives while a negotiation task of the
+   transfer is pending starts nothing (dl_guard_pending_task, regenerated) - because two attempts at
+   once are two writers on one file, and what they leave is never a prefix of the remote file. *)
+Theorem C04_no_second_negotiation : second_request_starts_task true = false.
+Proof. exact no_second_negotiation. Qed.
+
+Theorem C04_two_writers_corrupt : forall src local k,
+  prefix local src -> len local < len src -> ~ prefix (two_writers src local k) src.
+Proof. exact two_writers_corrupt. Qed.
+
 (* non-vacuity: concrete attempts meeting the hypotheses, with non-trivial outcomes *)
 Example C04_prefix_inv_nonvacuous :
   retry [1;2;3;4;5;6;7]%N [1;2]%N [(CutReset 2, [1]%N); (CutEof 1, []); (NoFault, [2;1]%N)] = [1;2;3;4;5;6;7]%N
@@ -250,6 +271,12 @@ Example C04_pair_run_nonvacuous :
   pair_run [1;2;3;4]%N [] [(CutReset 1, []); (CutReset 0, []); (CutReset 2, [1]%N)] = ([1;2;3;4]%N, DComplete, 4%nat) /\
   pair_run [1;2;3;4]%N [1]%N [(CutReset 1, []); (CutEof 1, []); (NoFault, [])] = ([1;2;3]%N, DFailedCancelled, 2%nat).
 Proof. split; reflexivity. Qed.
+
+Example C04_two_writers_nonvacuous :
+  two_writers [1;2;3]%N [] 1 = [1;1;2;3;2;3]%N /\
+  u_state (upload_session_msg [1;2;3]%N 3 (Some 0%N) 1 (Some 1) true false) = UFailed /\
+  u_failmsg (upload_session_msg [1;2;3]%N 3 (Some 0%N) 1 (Some 1) true false) = true.
+Proof. repeat split; reflexivity. Qed.
 
 Example C04_terminal_nonvacuous :
   d_state (download_session None [1]%N true [2]%N TEof []) = DRefused /\
